@@ -110,7 +110,8 @@ def _parse(parser, sql, null, calls, fmap):
         parse_result = parser.parse_string(line, parse_all=True)
         output = scrub(parse_result)
         for o, n in _utils.null_locations:
-            o[n] = null
+            # THE DEFAULT NULL IS A MODULE CONSTANT, DO NOT SHARE IT BETWEEN RESULTS
+            o[n] = {"null": {}} if null is SQL_NULL else null
         if not output:
             continue
         if isinstance(output, list):
